@@ -213,19 +213,19 @@ func buildReference() *reference {
 type viol struct{ key, msg string }
 
 type outcome struct {
-	v           *viol
-	openOps     int64  // operations counted when the initial open (and first election) returned
-	fsOps       int64  // operations counted until the crash / end
-	frozenStep  int64  // step executing at the freeze; len(hist) = after the history; -1 = during the initial open
-	frozenOp    string // the operation that was about to run
-	c           int64  // commit offset found after restart
-	term        int64
-	durableOff  int64
-	durableTerm int64
-	offsets     int
-	kinds       map[string]int64
-	flushLost   bool
-	closeLost   bool
+	v                  *viol
+	openOps            int64  // operations counted when the initial open (and first election) returned
+	fsOps              int64  // operations counted until the crash / end
+	frozenStep         int64  // step executing at the freeze; len(hist) = after the history; -1 = during the initial open
+	frozenOp           string // the operation that was about to run
+	c                  int64  // commit offset found after restart
+	term               int64
+	durableOff         int64
+	durableTerm        int64
+	offsets            int
+	kinds              map[string]int64
+	flushLost          bool
+	closeLost          bool
 	commits            int64 // KV batch commits of the node under test up to the crash / end of the history
 	maxCommitsPerEntry int64 // most batch commits seen during the application of one log entry
 	injected           bool  // the "@k" / "^k" action ran
@@ -295,8 +295,8 @@ func runOne(ref *reference, hist string, crashAt int64, trace bool) (out outcome
 	}
 	out.openOps = cfs.n.Load()
 	inj.armed.Store(true)
-	w := 0             // writes started so far
-	term := int64(0)   // last term whose UpdateTerm was started
+	w := 0              // writes started so far
+	term := int64(0)    // last term whose UpdateTerm was started
 	var started []int64 // all terms whose UpdateTerm was started
 	alive := true
 	for si := 0; si < len(hist) && !cfs.frozen.Load(); si++ {
@@ -513,7 +513,15 @@ type runner func(ref *reference, hist string, crashAt int64, trace bool) outcome
 var bigRef *reference
 
 var suites = map[string]runner{"db": runOne, "leader": runLeader, "follower": runFollower,
-	"dbbig": func(_ *reference, hist string, crashAt int64, trace bool) outcome { return runOne(bigRef, hist, crashAt, trace) }}
+	"dbbig": func(_ *reference, hist string, crashAt int64, trace bool) outcome {
+		return runOne(bigRef, hist, crashAt, trace)
+	},
+	"leaderbig": func(_ *reference, hist string, crashAt int64, trace bool) outcome {
+		return runLeader(bigRef, hist, crashAt, trace)
+	},
+	"followerbig": func(_ *reference, hist string, crashAt int64, trace bool) outcome {
+		return runFollower(bigRef, hist, crashAt, trace)
+	}}
 
 // bigHistories: every entry of the big log, with one event of {T,F,S,C} at every position.
 func bigHistories(tier string) (plain []string) {
@@ -588,7 +596,8 @@ func main() {
 	// performs, every crash index of those runs; the snapshot route ("^k") at every batch commit
 	smallBase := strings.Repeat("W", len(ref.log))
 	var snapJobs []job
-	nBigPlain, nInjSmall, nInjBig := 0, 0, 0
+	bigSample := 0
+	nBigPlain, nInjSmall, nInjBig, nCtlBig := 0, 0, 0, 0
 	{
 		plain := bigHistories(run.Tier)
 		injBases := []string{plain[0]}
@@ -600,6 +609,7 @@ func main() {
 		for _, h := range append(plain, inj...) {
 			hs = append(hs, job{"dbbig", h, -1})
 		}
+		bigSample = len(hs) - 1
 		injSmallBases := []string{smallBase}
 		if run.Tier == "thorough" {
 			injSmallBases = append(injSmallBases, insertions(smallBase, "TFSC")...)
@@ -609,12 +619,50 @@ func main() {
 		for _, h := range injSmall {
 			hs = append(hs, job{"db", h, -1})
 		}
+		// the real controllers over the big log: a flush before every batch commit they perform
+		// (all entries but the last one, which the harness sends after the restart)
+		ctlBase := strings.Repeat("W", len(bigRef.log)-1)
+		lb := []string{ctlBase}
+		fb := []string{ctlBase, strings.Repeat("PW", (len(bigRef.log)-1)/2) + "W"} // PW: the apply round covers two entries
+		if run.Tier == "thorough" {
+			lb = append(lb, insertions(ctlBase, "E")...)
+			fb = append(fb, insertions(ctlBase, "T")...)
+		}
+		for _, h := range append(lb, withInjections(runLeader, bigRef, lb, '@')...) {
+			hs = append(hs, job{"leaderbig", h, -1})
+			nCtlBig++
+		}
+		for _, h := range append(fb, withInjections(runFollower, bigRef, fb, '@')...) {
+			hs = append(hs, job{"followerbig", h, -1})
+			nCtlBig++
+		}
 		for _, h := range withInjections(runOne, bigRef, plain[:1+4*(len(bigRef.log)+1)], '^') {
 			snapJobs = append(snapJobs, job{"dbbig", h, 0})
 		}
 		for _, h := range withInjections(runOne, ref, append([]string{smallBase}, insertions(smallBase, "TFSC")...), '^') {
 			snapJobs = append(snapJobs, job{"db", h, 0})
 		}
+	}
+	if only := os.Getenv("VERIF_C07_ONLY"); only != "" { // development aid: comma-separated suite names (snapshot route: "snap")
+		keep := map[string]bool{}
+		for _, n := range strings.Split(only, ",") {
+			keep[n] = true
+		}
+		var f []job
+		for _, h := range hs {
+			if keep[h.suite] {
+				f = append(f, h)
+			}
+		}
+		if hs = f; len(hs) == 0 {
+			hs = []job{{"dbbig", strings.Repeat("W", len(bigRef.log)), -1}}
+		}
+		if !keep["snap"] {
+			snapJobs = nil
+		}
+		hs = append(hs, hs[0], hs[0]) // the sample indices below stay valid
+		nDB, nLeader, nFollower, bigSample = 1, 1, len(hs)-2, 0
+		run.NotExhaustive("VERIF_C07_ONLY=" + only)
 	}
 	budget := 70 * time.Second
 	if run.Tier == "thorough" {
@@ -665,7 +713,7 @@ func main() {
 	var wg sync.WaitGroup
 	var cut atomic.Bool
 	var mu sync.Mutex
-	var evals, beyond, insideOpen, flushLost, offsetsSeen, snapEvals, injEvals, injFired, maxPerEntry, bigEvals int64
+	var evals, beyond, insideOpen, flushLost, offsetsSeen, snapEvals, injEvals, injFired, maxPerEntry, bigEvals, ctlBigEvals int64
 	var nondet []string
 	cDist := map[int64]int64{}
 	stepDist := map[string]int64{}
@@ -691,6 +739,8 @@ func main() {
 					snapEvals++
 				case jb.suite == "dbbig":
 					bigEvals++
+				case jb.suite == "leaderbig" || jb.suite == "followerbig":
+					ctlBigEvals++
 				default:
 					perSuite[jb.suite]++
 				}
@@ -780,6 +830,8 @@ func main() {
 	run.Add("histories_small_log_flush_before_batch_commit_k", int64(nInjSmall))
 	run.Add("histories_snapshot_before_batch_commit_k", int64(len(snapJobs)))
 	run.Add("evaluations_big_log_db_alone", bigEvals)
+	run.Add("histories_big_log_real_leader_and_follower", int64(nCtlBig))
+	run.Add("evaluations_big_log_real_leader_and_follower", ctlBigEvals)
 	run.Add("evaluations_flush_before_batch_commit_k", injEvals)
 	run.Add("evaluations_snapshot_route", snapEvals)
 	run.Add("evaluations_injection_ran_before_the_crash_point", injFired)
@@ -826,7 +878,7 @@ func main() {
 		}
 		return o
 	}()})
-	run.Sample(map[string]any{"suite": "dbbig", "history": hs[len(hs)-nInjSmall-1].hist, "fs_ops": info[len(hs)-nInjSmall-1].n,
+	run.Sample(map[string]any{"suite": "dbbig", "history": hs[bigSample].hist, "fs_ops": info[bigSample].n,
 		"meaning": "events as in suite db; @k = kv.Flush right before the k-th batch commit the node performs (k = 1..number of commits measured on the implementation), ^k = snapshot right before the k-th batch commit, installed on a fresh node through the snapshot loader",
 		"big_log": func() []string {
 			var o []string
